@@ -34,6 +34,15 @@ type Case struct {
 	// JitUnit: the relative size of one jitter step (0 = 1e-13). With 3e-10 the ends of the links at one node differ
 	// by up to 1.8e-9 relative, just inside the library's tolerance for "the same point" (|a-b|/|a+b| < 1e-9).
 	JitUnit float64 `json:"jit_unit,omitempty"`
+	// Early: queries issued while the network is still being built (after the first After links); their results are
+	// not judged, the final query on the complete network is
+	Early []EarlyQ `json:"early,omitempty"`
+}
+
+type EarlyQ struct {
+	After int     `json:"after"`
+	From  vkit.P2 `json:"from"`
+	To    vkit.P2 `json:"to"`
 }
 
 func gen(t *rapid.T) Case {
@@ -108,6 +117,12 @@ func gen(t *rapid.T) Case {
 		return vkit.MkP(sx*rapid.Float64Range(5, float64(15+2*w)).Draw(t, lbl+"x"), sy*rapid.Float64Range(5, float64(15+2*w)).Draw(t, lbl+"y"))
 	}
 	c.From, c.To = q("from"), q("to")
+	if len(c.Links) >= 2 && rapid.IntRange(0, 2).Draw(t, "early") > 0 {
+		ne := rapid.IntRange(1, 3).Draw(t, "nearly")
+		for i := 0; i < ne; i++ {
+			c.Early = append(c.Early, EarlyQ{After: rapid.IntRange(1, len(c.Links)-1).Draw(t, "after"), From: q("efrom"), To: q("eto")})
+		}
+	}
 	return c
 }
 
@@ -201,6 +216,14 @@ func run(c Case) (v vkit.Verdict) {
 	for i, l := range c.Links {
 		ls := lineOf(c, l)
 		lens[i] = length(ls)
+		for _, e := range c.Early {
+			if e.After == i {
+				v.Class("query_before_network_complete")
+				if p := vkit.Catch(func() { net.ShortestRoute(e.From.Pt(), e.To.Pt()) }); p != "" {
+					return v.Fail("ShortestRoute on the network of the first %d links panicked: %s", i, p)
+				}
+			}
+		}
 		if p := vkit.Catch(func() { net.AddLink(ls, l.Speed) }); p != "" {
 			return v.Fail("AddLink %d panicked: %s", i, p)
 		}
@@ -331,7 +354,9 @@ func run(c Case) (v vkit.Verdict) {
 			why = fmt.Sprintf("route ends at node %d, which is not the node nearest the end point", cur)
 			continue
 		}
-		if cost > dd[cur]*(1+1e-9)+1e-12 {
+		// the search's distance-to-target estimate uses node positions, link costs use the links' own (slightly different)
+		// end points: a route may exceed the optimum by the node-position tolerance per link
+		if cost > dd[cur]*(1+1e-9)+1e-12+2*posTol*float64(len(chain)+1) {
 			why = fmt.Sprintf("route from node %d to node %d costs %v (%d links) but a chain of cost %v exists", s, cur, cost, len(chain), dd[cur])
 			continue
 		}
@@ -355,7 +380,7 @@ func TestProp(t *testing.T) {
 	vkit.Main(t, vkit.Spec[Case]{
 		ID: "C19",
 		Rule: "rapid: networks of 2-120 nodes on a lattice (spacing 2, |coordinates| >=10 in a drawn quadrant, so that the relative-tolerance node identification is unambiguous; in half of the networks the link end points differ from the node coordinates by a few 1e-13 relative, i.e. they are equal within the tolerance but not bit-identical), links from a drawn AddLink " +
-			"history: a random spanning tree over a drawn prefix of the nodes plus 0-2n random extra links, no self-loops or parallel links, each link a polyline whose ends differ from the node by up to 3 steps of 1e-13, 1e-11 or 3e-10 relative (the last just inside the 1e-9 identification tolerance) with 0-4 jittered " +
+			"history: in two cases of three 1-3 queries are issued while the network is still being built (AddLink calls before and after them; only the final query on the complete network is judged); a random spanning tree over a drawn prefix of the nodes plus 0-2n random extra links, no self-loops or parallel links, each link a polyline whose ends differ from the node by up to 3 steps of 1e-13, 1e-11 or 3e-10 relative (the last just inside the 1e-9 identification tolerance) with 0-4 jittered " +
 			"intermediate vertices given in either direction, speeds in [0.1,100]; both Distance and Time; query points near nodes or anywhere. Oracle: Dijkstra on a reference graph; the " +
 			"returned pieces must be input links forming a walk from a nearest node of the start point to a nearest node of the end point, reported totals = sums over the chain, " +
 			"start/endDistance = distances to those nodes, chain cost = Dijkstra optimum (1e-9), empty iff same node or disconnected. Non-trivial = the optimal chain has more links " +
